@@ -22,11 +22,15 @@ Definition u32 (x : N) : N := x mod W32.          (* `x as u32` *)
 Definition U32MAX : N := 4294967295.
 Definition U64MAX : N := 18446744073709551615.
 
-(** ** Lists indexed by [N] *)
-Fixpoint lenN {A} (l : list A) : N :=
-  match l with [] => 0 | _ :: t => N.succ (lenN t) end.
-Fixpoint firstnN {A} (n : N) (l : list A) : list A :=
-  match l with [] => [] | x :: t => if n =? 0 then [] else x :: firstnN (N.pred n) t end.
+(** ** Lists indexed by [N]
+    The functions that walk the 64 KiB memory are tail-recursive (the model is run with vm_compute);
+    HostBaseProofs.v relates them to [length]/[firstn]/[skipn]/[++]. *)
+Fixpoint lenN_acc {A} (l : list A) (acc : N) : N :=
+  match l with [] => acc | _ :: t => lenN_acc t (N.succ acc) end.
+Definition lenN {A} (l : list A) : N := lenN_acc l 0.
+Fixpoint rev_firstnN {A} (n : N) (l acc : list A) : list A :=
+  match l with [] => acc | x :: t => if n =? 0 then acc else rev_firstnN (N.pred n) t (x :: acc) end.
+Definition firstnN {A} (n : N) (l : list A) : list A := rev_append (rev_firstnN n l []) [].
 Fixpoint skipnN {A} (n : N) (l : list A) : list A :=
   match l with [] => [] | _ :: t => if n =? 0 then l else skipnN (N.pred n) t end.
 Definition zerosN (n : N) : list N := N.iter n (cons 0) [].
@@ -35,15 +39,38 @@ Fixpoint nthN {A} (n : N) (l : list A) : option A :=
 Fixpoint setnthN {A} (n : N) (v : A) (l : list A) : list A :=
   match l with [] => [] | x :: t => if n =? 0 then v :: t else x :: setnthN (N.pred n) v t end.
 
+(** [has_len n l = (n <=? lenN l)] (lemma [has_len_spec]) without walking the whole list *)
+Fixpoint has_len {A} (n : N) (l : list A) : bool :=
+  match l with [] => n =? 0 | _ :: t => if n =? 0 then true else has_len (N.pred n) t end.
+
 (** `v[a..b]` on a host-side vector or on memory: [None] unless [a <= b <= len]. *)
 Definition sliceN {A} (l : list A) (a b : N) : option (list A) :=
-  if (a <=? b) && (b <=? lenN l) then Some (firstnN (b - a) (skipnN a l)) else None.
-(** overwrite [l] at [a ..] with [bs]: [None] unless it fits *)
+  if (a <=? b) && has_len b l then Some (firstnN (b - a) (skipnN a l)) else None.
+(** overwrite [l] at [a ..] with [bs]: [None] unless it fits
+    ([= firstn a l ++ bs ++ skipn (a + |bs|) l], lemma [storeN_spec]) *)
 Definition storeN {A} (l : list A) (a : N) (bs : list A) : option (list A) :=
-  if a + lenN bs <=? lenN l then Some (firstnN a l ++ bs ++ skipnN (a + lenN bs) l) else None.
+  if has_len (a + lenN bs) l
+  then Some (rev_append (rev_firstnN a l []) (bs ++ skipnN (a + lenN bs) l))
+  else None.
 (** `Vec::resize(n, 0)` *)
 Definition resizeN (l : list N) (n : N) : list N :=
   if n <=? lenN l then firstnN n l else l ++ zerosN (n - lenN l).
+
+(** ** Linear memory: its length and an explicit prefix; bytes beyond the prefix are zero.
+    (A dense 64 KiB list would make every access walk the whole memory.) *)
+Record memory : Type := mkMem { m_len : N; m_pre : list N }.
+(** checked `memory[a..b]` *)
+Definition mem_slice (m : memory) (a b : N) : option (list N) :=
+  if (a <=? b) && (b <=? m_len m)
+  then Some (let l := firstnN (b - a) (skipnN a (m_pre m)) in l ++ zerosN ((b - a) - lenN l))
+  else None.
+(** checked write of [bs] at [a] *)
+Definition mem_store (m : memory) (a : N) (bs : list N) : option memory :=
+  if a + lenN bs <=? m_len m
+  then Some (mkMem (m_len m)
+               (let p := m_pre m in
+                rev_append (rev_firstnN a p []) (zerosN (a - lenN p) ++ bs ++ skipnN (a + lenN bs) p)))
+  else None.
 
 (** little-endian encodings *)
 Fixpoint le_bytes (k : nat) (x : N) : list N :=
@@ -67,7 +94,7 @@ Arguments Fault {A}.
 
 Record st (X : Type) : Type := mkSt {
   energy : N;
-  mem : list N;
+  mem : memory;
   evs : list event;      (* most recent first *)
   hs : X }.
 Arguments mkSt {X}.
@@ -101,14 +128,20 @@ Definition tick {X} (c : N) : M X unit :=
            else (mkSt 0 (mem s) (evs s) (hs s), OutOfEnergy).
 Definition get_hs {X} : M X X := fun s => (s, Ok (hs s)).
 Definition set_hs {X} (h : X) : M X unit := fun s => (mkSt (energy s) (mem s) (evs s) h, Ok tt).
-Definition mem_len {X} : M X N := fun s => (s, Ok (lenN (mem s))).
+Definition mem_len {X} : M X N := fun s => (s, Ok (m_len (mem s))).
+(** `ensure!(n <= memory.len())` *)
+Definition ensure_fits {X} (n : N) : M X unit :=
+  fun s => (s, if n <=? m_len (mem s) then Ok tt else Trap).
+(** checked `memory[a..]` (only the borrow; contents are not needed) *)
+Definition mborrow_from {X} (a : N) : M X unit :=
+  fun s => (s, if a <=? m_len (mem s) then Ok tt else Fault).
 Definition get_energy {X} : M X N := fun s => (s, Ok (energy s)).
 (** checked `memory[a..b]` *)
 Definition mslice {X} (a b : N) : M X (list N) :=
-  fun s => match sliceN (mem s) a b with Some bs => (s, Ok bs) | None => (s, Fault) end.
+  fun s => match mem_slice (mem s) a b with Some bs => (s, Ok bs) | None => (s, Fault) end.
 (** checked write of [bs] at [a] *)
 Definition mstore {X} (a : N) (bs : list N) : M X unit :=
-  fun s => match storeN (mem s) a bs with
+  fun s => match mem_store (mem s) a bs with
            | Some m' => (mkSt (energy s) m' (evs s) (hs s), Ok tt)
            | None => (s, Fault) end.
 (** checked slice of a host-side vector *)
